@@ -1,40 +1,35 @@
-(* Proofs/C11/Registered.v -- every wire stays registered under its own (parent, name) as long as no
-   rename / reparent has raised; and what goes wrong afterwards (refutations, by computation) *)
+(* Proofs/C11/Registered.v -- every wire is registered under its own (parent, name) after EVERY call sequence
+   (a failed rename / reparent no longer unregisters the wire), hence `del` never raises KeyError; and the
+   former counter-examples (witnesses of the repaired defect) now behave *)
 From Coq Require Import ZArith List Bool Arith Lia Setoid.
 From V Require Import Model.Build Spec.C11 Proofs.C11.Tbl Proofs.C11.Inv Proofs.C11.Conflict.
 Import ListNotations.
 
-Lemma registered_step : forall s o,
-  Inv s -> all_registered s -> (subject o <> None -> snd (step s o) = Ok) -> all_registered (exec s o).
+Lemma registered_step : forall s o, Inv s -> all_registered s -> all_registered (exec s o).
 Proof.
-  intros s o Hinv Hreg Hok. unfold exec.
+  intros s o Hinv Hreg. unfold exec.
   pose proof (i_wpar s Hinv) as WP.
   assert (AP : forall kd o0 n w, all_registered (fst (add_port s kd o0 n w))).
   { intros. unfold add_port. destruct (negb _); [exact Hreg|]. destruct (_ && _ && _); exact Hreg. }
-  assert (MV : forall w np nn, snd (move s w np nn) = Ok -> all_registered (fst (move s w np nn))).
-  { intros w np nn. unfold move.
-    destruct (Nat.ltb_spec w (nwire s)) as [Hw|Hw]; cbn [negb]; [|discriminate].
-    destruct (negb _); [discriminate|].
-    destruct (negb (tmem _ _)) eqn:Hm; [discriminate|]. cbn.
-    match goal with |- snd (if ?c then _ else _) = _ -> _ => destruct c eqn:Hm2 end; [discriminate|].
-    intros _ x Hx. cbn in Hx. unfold registered. cbn.
+  assert (MV : forall w np nn, all_registered (fst (move s w np nn))).
+  { intros w np nn. destruct (move s w np nn) as [s' out] eqn:E. apply move_cases in E.
+    destruct E as [[E _]|[_ [Hw E]]]; cbn [fst]; [subst; exact Hreg|].
+    cbn in E. destruct E as [Hp' [Hpre [Hm E]]]. subst s'.
     set (p := wparent s w) in *. set (n := wname s w) in *.
     set (p' := match np with Some y => y | None => p end) in *.
     set (n' := match nn with Some y => y | None => n end) in *.
     set (T1 := upd (owires s) p (tdel (owires s p) n)) in *.
-    change (T1 p' ++ [(n', w)]) with (tput (T1 p') n' w).
-    apply negb_false_iff in Hm. apply tmem_true in Hm. destruct Hm as [w0 Hw0].
-    assert (Ew0 : w0 = w) by (specialize (Hreg w Hw); unfold registered in Hreg; fold p n in Hreg; congruence).
-    subst w0.
+    intros x Hx. cbn in Hx. unfold registered. cbn.
+    assert (Hm2 : tmem (T1 p') n' = false) by (apply tmem_after_del; exact Hpre).
     unfold upd at 2 3. destruct (Nat.eqb_spec x w) as [E|E].
     - subst x. rewrite upd_same, tget_tput.
       unfold tmem in Hm2. destruct (tget (T1 p') n'); [discriminate|]. now rewrite Z.eqb_refl.
-    - apply tget_upd_tput_keep. specialize (Hreg x Hx). unfold registered in Hreg.
-      unfold T1, upd. destruct (Nat.eqb_spec (wparent s x) p) as [E1|E1]; [|exact Hreg].
-      rewrite tget_tdel. destruct (Z.eqb_spec (wname s x) n) as [E2|E2]; [|rewrite <- E1; exact Hreg].
-      exfalso. apply E. rewrite E1, E2 in Hreg. congruence. }
-  destruct o as [[p0|] n0 prim|p0 n0 width|o n0 w|o n0 w|o n0 w|w n0|w p0|w p0 n0]; cbn [step subject] in *; auto;
-    try (apply MV; apply Hok; discriminate).
+    - apply tget_upd_tput_keep. pose proof (Hreg x Hx) as Hrx. pose proof (Hreg w Hw) as Hrw.
+      unfold registered in Hrx, Hrw. fold p n in Hrw.
+      unfold T1, upd. destruct (Nat.eqb_spec (wparent s x) p) as [E1|E1]; [|exact Hrx].
+      rewrite tget_tdel. destruct (Z.eqb_spec (wname s x) n) as [E2|E2]; [|rewrite <- E1; exact Hrx].
+      exfalso. apply E. rewrite E1, E2 in Hrx. congruence. }
+  destruct o as [[p0|] n0 prim|p0 n0 width|o n0 w|o n0 w|o n0 w|w n0|w p0|w p0 n0]; cbn [step] in *; auto.
   - unfold new_logic. destruct (negb _); [exact Hreg|]. destruct (tmem _ _); [exact Hreg|].
     intros x Hx. cbn in Hx. unfold registered. cbn. rewrite upd_other; [apply Hreg; auto | specialize (WP x Hx); lia].
   - intros x Hx. cbn in Hx. unfold registered. cbn. rewrite upd_other; [apply Hreg; auto | specialize (WP x Hx); lia].
@@ -47,42 +42,35 @@ Proof.
     + apply tget_upd_tput_keep. apply Hreg. lia.
 Qed.
 
-Lemma registered_run : forall ops s,
-  Inv s -> all_registered s -> moves_succeed s ops -> all_registered (run_from s ops).
+Lemma registered_run_from : forall ops s, Inv s -> all_registered s -> all_registered (run_from s ops).
 Proof.
-  induction ops as [|o ops IH]; intros s Hinv Hreg Hm; [exact Hreg|].
-  destruct Hm as [Hm1 Hm2]. unfold run_from in *. cbn. apply IH; auto.
+  induction ops as [|o ops IH]; intros s Hinv Hreg; [exact Hreg|].
+  unfold run_from in *. cbn. apply IH.
   - unfold exec. destruct (step s o) as [s' out] eqn:E. cbn. eapply step_inv; eauto.
   - apply registered_step; auto.
 Qed.
-Lemma registered_init : all_registered init.
-Proof. intros w Hw. cbn in Hw. lia. Qed.
+Lemma registered_run : forall ops, all_registered (run ops).
+Proof.
+  intros. apply registered_run_from; [exact inv_init|]. intros w Hw. cbn in Hw. lia.
+Qed.
 
-(* ---------------------------------------------------------------- refutations (computed on the model; replayed on the real classes) *)
-Definition ops_evict : list op :=
+Lemma subject_registered_all : forall s o, all_registered s -> valid_op s o -> subject_registered s o.
+Proof.
+  intros s o A V. unfold subject_registered.
+  destruct o; cbn in *; auto; apply A; tauto.
+Qed.
+
+(* ---------------------------------------------------------------- the former counter-example, on the repaired model *)
+Definition ops_failed_rename : list op :=
   [NewLogic None 0%Z false; NewWire 0 1%Z 1%Z; NewWire 0 2%Z 1%Z; Rename 0 2%Z].
 
-(* after a rename that raised, renaming the same wire again removes ANOTHER wire (never touched by any call)
-   from the parent's table *)
-Lemma evict_witness :
-  let s := run ops_evict in
-  snd (step (run [NewLogic None 0%Z false; NewWire 0 1%Z 1%Z; NewWire 0 2%Z 1%Z]) (Rename 0 2%Z)) = Raise (CWire 0 2%Z) /\
-  tget (owires s 0) 2%Z = Some 1 /\ registered s 1 /\
+(* a.rename('b') raises and changes nothing; a.rename('c') then moves a only, wire b stays; a.rename('b') still raises *)
+Lemma failed_rename_harmless :
+  let s0 := run [NewLogic None 0%Z false; NewWire 0 1%Z 1%Z; NewWire 0 2%Z 1%Z] in
+  let s := run ops_failed_rename in
+  snd (step s0 (Rename 0 2%Z)) = Raise (CWire 0 2%Z) /\
+  dump s = dump s0 /\
   snd (step s (Rename 0 3%Z)) = Ok /\
-  tget (owires (exec s (Rename 0 3%Z)) 0) 2%Z = None.
+  tget (owires (exec s (Rename 0 3%Z)) 0) 2%Z = Some 1 /\ tget (owires (exec s (Rename 0 3%Z)) 0) 3%Z = Some 0 /\
+  snd (step s (Rename 0 2%Z)) = Raise (CWire 0 2%Z).
 Proof. vm_compute. repeat split; reflexivity. Qed.
-
-Lemma wires_stay_refuted : exists ops o, valid_op (run ops) o /\ ~ wires_stay (run ops) o (exec (run ops) o).
-Proof.
-  exists ops_evict, (Rename 0 3%Z). split; [vm_compute; lia|].
-  intros H. specialize (H 0 2%Z 1). vm_compute in H.
-  assert (X : @None nat = Some 1) by (apply H; [lia | reflexivity | discriminate]). discriminate.
-Qed.
-
-(* ... and renaming it to the name it collided with now SUCCEEDS and replaces the earlier wire *)
-Lemma conflict_raises_refuted :
-  exists ops o c, valid_op (run ops) o /\ conflict_of (run ops) o = Some c /\ snd (step (run ops) o) = Ok /\
-                  tget (owires (run ops) 0) 2%Z = Some 1 /\ tget (owires (exec (run ops) o) 0) 2%Z = Some 0.
-Proof.
-  exists ops_evict, (Rename 0 2%Z), (CWire 0 2%Z). vm_compute. repeat split; auto.
-Qed.
